@@ -59,7 +59,10 @@ class TargetMultiFitness(SearchBudget):
 
     def is_done(self, tracker: ProgressTracker):
         assert isinstance(tracker, MultiObjectiveProgressTracker)
-        comps = tracker.get_best_individuals()[0].get_fitness(tracker.get_problem()).fitness_components
+        best = tracker.get_best_individuals()
+        if not best:
+            return False
+        comps = best[0].get_fitness(tracker.get_problem()).fitness_components
         assert len(comps) == len(self.targets)
         return all(abs(c - v) < 0.001 for v, c in zip(self.targets, comps))
 
@@ -70,5 +73,8 @@ class TargetMultiSameFitness(SearchBudget):
 
     def is_done(self, tracker: ProgressTracker):
         assert isinstance(tracker, MultiObjectiveProgressTracker)
-        comps = tracker.get_best_individuals()[0].get_fitness(tracker.get_problem()).fitness_components
+        best = tracker.get_best_individuals()
+        if not best:
+            return False
+        comps = best[0].get_fitness(tracker.get_problem()).fitness_components
         return all(abs(c - self.target_fitness) < 0.001 for c in comps)
